@@ -63,6 +63,14 @@ def declaredPhylip (s : List Byte) : Option (Int × Int) :=
     | none => none
     | some (l, _) => some (n, l)
 
+/-- number of rows of a result against a declared count: equal when no duplicate policy drops rows
+(`dropsRows = false`, IGNORE_NONE), at most the declared count otherwise -/
+def rowsOk (dropsRows : Bool) (n d : Int) : Bool := if dropsRows then decide (n ≤ d) else n == d
+
+/-- nothing but blanks up to the first NUL (NUL is goalign's in-band end-of-input marker: the lexers return rune 0
+at EOF) -/
+def blankToNul (bs : List Byte) : Bool := (bs.takeWhile (· != 0)).all isBlank
+
 def lower (b : Byte) : Byte := if 65 ≤ b && b ≤ 90 then b + 32 else b
 
 /-- remove `[...]` comments (naively, unnested) -/
